@@ -28,7 +28,7 @@ N = 3
 
 def containers(kind):
     base = list(gen.BOOL_CONTAINERS if kind == "bool" else gen.SPIN_CONTAINERS)
-    return base + ["dictperm", "dictrep"]
+    return base + ["dictperm", "dictrep", "dictdup"]
 
 
 def gen_cases(tier):
@@ -70,6 +70,9 @@ def build_model(case):
     cont = case["container"]
     if cont == "dictperm":
         return {tuple(reversed(k)): v for k, v in D.items()}, D
+    if cont == "dictdup":
+        from .c04 import spell
+        return spell(D, "dictdup", spin), D
     if cont == "dictrep":
         if spin:
             return {(k * 3 if len(k) == 1 else k): v for k, v in D.items()}, D
